@@ -1497,3 +1497,148 @@ Section Main.
         as [s' out] eqn:E. simpl in *. exact A.
   Qed.
 End Main.
+
+(* ------------------------------------------------------------------------------------ *)
+(* Part 5: the oracle decides the stated properties; the hypotheses are satisfiable       *)
+(* ------------------------------------------------------------------------------------ *)
+Lemma list_eqb_eq : forall A (e : A -> A -> bool), (forall a b, e a b = true -> a = b) ->
+  forall l r, list_eqb e l r = true -> l = r.
+Proof.
+  intros A e He. induction l as [|a l IH]; intros [|b r] H; simpl in H; try discriminate; [reflexivity|].
+  apply andb_true_iff in H. destruct H as [H1 H2]. f_equal; [apply He; exact H1|apply IH; exact H2].
+Qed.
+
+Lemma nat_list_eqb_eq : forall l r, list_eqb Nat.eqb l r = true -> l = r.
+Proof. apply list_eqb_eq. intros a b H. apply Nat.eqb_eq; exact H. Qed.
+
+Lemma string_list_eqb_eq : forall l r, list_eqb String.eqb l r = true -> l = r.
+Proof. apply list_eqb_eq. intros a b H. apply String.eqb_eq; exact H. Qed.
+
+Lemma node_eqb_eq : forall a b, node_eqb a b = true -> a = b.
+Proof.
+  intros [u l p ps] [u' l' p' ps'] H. unfold node_eqb in H. simpl in H.
+  repeat (apply andb_true_iff in H; destruct H as [H ?]).
+  apply Nat.eqb_eq in H. apply String.eqb_eq in H2, H1. apply nat_list_eqb_eq in H0. subst. reflexivity.
+Qed.
+
+Lemma po_eqb_eq : forall a b, po_eqb a b = true -> a = b.
+Proof.
+  intros [i k n ps] [i' k' n' ps'] H. unfold po_eqb in H. simpl in H.
+  repeat (apply andb_true_iff in H; destruct H as [H ?]).
+  apply Nat.eqb_eq in H. apply String.eqb_eq in H2. apply string_list_eqb_eq in H1.
+  apply nat_list_eqb_eq in H0. subst. reflexivity.
+Qed.
+
+Lemma ind_eqb_eq : forall a b, ind_eqb a b = true -> a = b.
+Proof.
+  intros [u g po f] [u' g' po' f'] H. unfold ind_eqb in H. simpl in H.
+  repeat (apply andb_true_iff in H; destruct H as [H ?]).
+  apply Nat.eqb_eq in H, H2, H0. subst.
+  destruct po as [po|], po' as [po'|]; simpl in H1; try discriminate; [|reflexivity].
+  apply po_eqb_eq in H1. subst. reflexivity.
+Qed.
+
+Lemma nth_error_firstn_lt : forall A (l : list A) n i, i < n -> nth_error (firstn n l) i = nth_error l i.
+Proof.
+  induction l as [|a l IH]; intros [|n] [|i] H; simpl; try reflexivity; try lia.
+  apply IH. lia.
+Qed.
+
+Lemma firstn_prefix_nth : forall A (l l0 : list A), firstn (List.length l0) l = l0 ->
+  forall i, i < List.length l0 -> nth_error l i = nth_error l0 i.
+Proof.
+  intros A l l0 H i Hi. rewrite <- (nth_error_firstn_lt A l (List.length l0) i Hi). rewrite H. reflexivity.
+Qed.
+
+(* clause (1) of holds_b is the frame property of the theorems *)
+Lemma unchanged_b_sound : forall s0 s1, unchanged_b s0 s1 = true -> untouched s0 s1.
+Proof.
+  intros s0 s1 H. unfold unchanged_b in H.
+  apply andb_true_iff in H. destruct H as [H H3]. apply andb_true_iff in H. destruct H as [H1 H2].
+  apply (list_eqb_eq _ _ node_eqb_eq) in H1. apply (list_eqb_eq _ _ nat_list_eqb_eq) in H2.
+  apply (list_eqb_eq _ _ ind_eqb_eq) in H3.
+  split; [|split]; intros; apply firstn_prefix_nth; assumption.
+Qed.
+
+(* clause (2) of holds_b: a graph it calls fresh shares no listed node and no parent of a listed
+   node with the memory that existed before *)
+Lemma fresh_graph_b_sound : forall s0 s1 g, fresh_graph_b s0 s1 g = true ->
+  glen (smem s0) <= g /\
+  forall r, In r (get_graph (smem s1) g) ->
+    nlen (smem s0) <= r /\ forall p, In p (parents (get_node (smem s1) r)) -> nlen (smem s0) <= p.
+Proof.
+  intros s0 s1 g H. unfold fresh_graph_b in H. apply andb_true_iff in H. destruct H as [H1 H2].
+  apply Nat.leb_le in H1. split; [exact H1|]. intros r Hr. rewrite forallb_forall in H2.
+  specialize (H2 r Hr). apply andb_true_iff in H2. destruct H2 as [A B]. apply Nat.leb_le in A.
+  split; [exact A|]. intros p Hp. rewrite forallb_forall in B. apply Nat.leb_le. apply B; exact Hp.
+Qed.
+
+(* the replay functions of the correspondence check have the footprint property *)
+Definition content_ok (c : list cnode) : Prop :=
+  forall x, In x c -> forall i, In i (snd x) -> i < List.length c.
+
+Definition content_ok_b (c : list cnode) : bool :=
+  forallb (fun x : cnode => forallb (fun i => Nat.ltb i (List.length c)) (snd x)) c.
+
+Lemma content_ok_b_sound : forall c, content_ok_b c = true -> content_ok c.
+Proof.
+  intros c H x Hx i Hi. unfold content_ok_b in H. rewrite forallb_forall in H.
+  specialize (H x Hx). rewrite forallb_forall in H. apply Nat.ltb_lt. apply H; exact Hi.
+Qed.
+
+Lemma alloc_graph_safe : forall m c nl gl, content_ok c ->
+  nl <= nlen m -> gl <= glen m -> scoped m -> fresh_closed nl gl m ->
+  safe_step nl gl m (fst (alloc_graph m c)) /\
+  gl <= snd (alloc_graph m c) < glen (fst (alloc_graph m c)).
+Proof.
+  intros m c nl gl Hc Hn Hg [Sn Sg] [Cn Cg]. unfold alloc_graph. cbv zeta. cbn [fst snd].
+  set (newn := map (cnode_to_node (List.length (mn m))) c).
+  set (newg := [seq (List.length (mn m)) (List.length c)]).
+  assert (Hlen : List.length newn = List.length c) by (unfold newn; apply map_length).
+  assert (Hnew : forall r nd, nth_error newn r = Some nd ->
+                 forall p, In p (parents nd) -> nlen m <= p < nlen m + List.length c).
+  { intros r nd H p Hp. unfold newn in H. apply nth_error_In, in_map_iff in H.
+    destruct H as [[[[u l] pp] ps] [E Hin]]. subst nd. simpl in Hp. apply in_map_iff in Hp.
+    destruct Hp as [i [Ei Hi]]. subst p. specialize (Hc _ Hin i Hi). unfold nlen. simpl in Hc. lia. }
+  assert (Hgnew : forall k ns, nth_error newg k = Some ns ->
+                  forall r, In r ns -> nlen m <= r < nlen m + List.length c).
+  { intros k ns H r Hr. unfold newg in H. destruct k as [|k]; simpl in H; [|destruct k; discriminate].
+    inversion H; subst ns. apply in_seq in Hr. unfold nlen. lia. }
+  unfold glen, nlen in *. cbn [mn mg].
+  assert (L1 : List.length (mn m ++ newn) = List.length (mn m) + List.length c)
+    by (rewrite app_length, Hlen; reflexivity).
+  assert (L2 : List.length (mg m ++ newg) = S (List.length (mg m)))
+    by (rewrite app_length; unfold newg; simpl; lia).
+  split; [|lia].
+  split; [|split; [|split]].
+  - split; intros r Hr; cbn [mn mg]; apply nth_error_app1; lia.
+  - split; unfold nlen, glen; cbn [mn mg]; lia.
+  - split; unfold nlen; cbn [mn mg].
+    + intros r nd H p Hp. rewrite L1.
+      destruct (Nat.lt_ge_cases r (List.length (mn m))) as [L|L].
+      * rewrite nth_error_app1 in H by exact L. specialize (Sn r nd H p Hp). lia.
+      * rewrite nth_error_app2 in H by exact L. specialize (Hnew _ _ H p Hp). lia.
+    + intros g ns H r Hr. rewrite L1.
+      destruct (Nat.lt_ge_cases g (List.length (mg m))) as [L|L].
+      * rewrite nth_error_app1 in H by exact L. specialize (Sg g ns H r Hr). lia.
+      * rewrite nth_error_app2 in H by exact L. specialize (Hgnew _ _ H r Hr). lia.
+  - split; cbn [mn mg].
+    + intros r nd Hr H p Hp. destruct (Nat.lt_ge_cases r (List.length (mn m))) as [L|L].
+      * rewrite nth_error_app1 in H by exact L. eapply Cn; eauto.
+      * rewrite nth_error_app2 in H by exact L. specialize (Hnew _ _ H p Hp). lia.
+    + intros g ns Hg' H r Hr. destruct (Nat.lt_ge_cases g (List.length (mg m))) as [L|L].
+      * rewrite nth_error_app1 in H by exact L. eapply Cg; eauto.
+      * rewrite nth_error_app2 in H by exact L. specialize (Hgnew _ _ H r Hr). lia.
+Qed.
+
+Lemma replay_mut_footprint : forall tbl, Forall content_ok tbl -> mut_footprint (replay_mut tbl).
+Proof.
+  intros tbl H t k m g nl gl Hn Hg Hs Hc Hgr. unfold replay_mut.
+  apply alloc_graph_safe; auto.
+  destruct (nth_in_or_default k tbl []) as [Hin|E].
+  - rewrite Forall_forall in H. apply H; exact Hin.
+  - rewrite E. intros x [].
+Qed.
+
+Lemma stable1_const : forall b, stable1 (fun _ _ => b).
+Proof. intros b m m' g _ _ _. reflexivity. Qed.
